@@ -351,7 +351,8 @@ void Mtz::read_history_and_batch_headers(AnyStream& stream) {
         int total_words = simple_atoi(args, &args);
         int int_words = simple_atoi(args, &args);
         int float_words = simple_atoi(args);
-        if (total_words != int_words + float_words || total_words > 1000)
+        if (int_words < 0 || int_words > 1000 || float_words < 0 || float_words > 1000 ||
+            total_words != int_words + float_words || total_words > 1000)
           fail("Wrong BH header");
         stream.read(buf, 80); // TITLE
         const char* end = rtrim_cstr(buf + 6, buf+76);
